@@ -33,6 +33,18 @@ fuzz_target!(|data: &[u8]| {
     // nothing beyond the consumed prefix was needed
     let again = Transaction::read(&bytes[..pos], branch).expect("the consumed prefix alone must parse");
     assert_eq!(again.txid(), tx.txid(), "prefix parse differs");
+    // the result must not depend on how the reader delivers the bytes
+    struct Chunks<'a>(&'a [u8], usize);
+    impl std::io::Read for Chunks<'_> {
+        fn read(&mut self, buf: &mut [u8]) -> std::io::Result<usize> {
+            let n = buf.len().min(self.1).min(self.0.len());
+            buf[..n].copy_from_slice(&self.0[..n]);
+            self.0 = &self.0[n..];
+            Ok(n)
+        }
+    }
+    let chunked = Transaction::read(Chunks(bytes, 1 + data[0] as usize % 13), branch).expect("a chunking reader must give the same result");
+    assert_eq!(chunked.txid(), tx.txid(), "txid depends on reader chunking");
     let mut out = vec![];
     tx.write(&mut out).expect("an accepted transaction must serialise");
     let back = Transaction::read(&out[..], branch).expect("own serialisation must parse");
